@@ -16,6 +16,7 @@ import math
 from collections import deque
 
 from mc import core, pool, models, eng
+from mc.ref import si
 from mc.ref import cme, ratelaw
 
 core.setup_paths()
@@ -122,24 +123,24 @@ def check_blackbox(case, seeds):
 
 def od_systems(tier):
     s = []
-    s.append({"name": "2A<->B on periodic 2x1x1 (two faces)",
+    s.append({"name": "2A<->B on periodic 2x1x1 (two faces)", "units_variants": True,
               "spec": {"species": [{"label": "A", "D": 1.0}, {"label": "B", "D": 0.0}],
                        "reactions": [R([("A", 2)], [("B", 1)], 0.5, 0.75)], "envs": [""],
                        "space": {"type": "grid", "w": 2, "h": 1, "d": 1, "vol": 2.0, "bc": {"x": "periodical"}}},
               "init": [[3, 0, 0, 1]]})
-    s.append({"name": "A+B->C on a 3-node graph with heterogeneous volumes",
+    s.append({"name": "A+B->C on a 3-node graph with heterogeneous volumes", "units_variants": True,
               "spec": {"species": [{"label": "A", "D": 0.5}, {"label": "B", "D": 1.5}, {"label": "C", "D": 0.0}],
                        "reactions": [R([("A", 1), ("B", 1)], [("C", 1)], 0.8, 0.3)], "envs": [""],
                        "space": {"type": "graph", "nodes": [{"vol": 1.0, "env": 0}, {"vol": 8.0, "env": 0}, {"vol": 0.5, "env": 0}],
                                  "edges": [[0, 1, 1.5, 0.75], [2, 1, 2.5, 1.25]]}},
               "init": [[1, 1, 0, 0, 1, 1, 0, 0, 0]]})
-    s.append({"name": "per-environment D on a graph with unequal volumes (size-weighted harmonic mean)",
+    s.append({"name": "per-environment D on a graph with unequal volumes (size-weighted harmonic mean)", "units_variants": True,
               "spec": {"species": [{"label": "A", "D": {"a": 1.0, "b": 4.0}}, {"label": "B", "D": {"a": 0.5, "default": 2.0}}],
                        "reactions": [R([("A", 1)], [("B", 1)], 0.3, 0.1)], "envs": ["a", "b"],
                        "space": {"type": "graph", "nodes": [{"vol": 1.0, "env": 0}, {"vol": 8.0, "env": 1}],
                                  "edges": [[0, 1, 1.5, 0.75]]}},
               "init": [[2, 1, 1, 2]]})
-    s.append({"name": "3A->B, A+2B->C, 0->A in one cell (combinatorial factors, volume exponents)",
+    s.append({"name": "3A->B, A+2B->C, 0->A in one cell (combinatorial factors, volume exponents)", "units_variants": True,
               "spec": {"species": [{"label": "A"}, {"label": "B"}, {"label": "C"}],
                        "reactions": [R([("A", 3)], [("B", 1)], 0.7), R([("A", 1), ("B", 2)], [("C", 1)], 1.1, 0.4),
                                      R([], [("A", 1)], 0.9)], "envs": [""],
@@ -247,7 +248,14 @@ def check_owned(case):
     chs = cme.channels(spec, x, chem)
     tab, a0 = cme.effect_table(chs)
     B = sum(1 for c in chs if c[1] > 0)
-    script = models.build_script({"system": spec, "t_sample": [0], "policy": "no_sampling", "seed": 1, "isp": "none", "t_max": 1e9})
+    scd = {"system": spec, "t_sample": [0], "policy": "no_sampling", "seed": 1, "isp": "none", "t_max": 1e9}
+    tfac = 1.0
+    if case.get("units"):
+        # the script asks for its output in another units system (the model itself stays as written): the same events
+        # with the same propensities; the engine's clock then runs in the script's time unit
+        scd["units"] = list(case["units"])
+        tfac = float(si.factor(tuple(case["units"]), si.DEFAULT, (0, 1, 0)))
+    script = models.build_script(scd)
     counts = {}
     waits = []
     stats = {"transitions": 0, "blind": 0}
@@ -259,7 +267,7 @@ def check_owned(case):
         pr.push([u, u])
         r = e.iterate()
         y = pr.state(n)
-        tt = pr.time()
+        tt = pr.time() * tfac
         inj = pr.n_injected()
         e.finalize()
         stats["transitions"] += 1
@@ -314,7 +322,7 @@ def check_owned(case):
                 pr.push([(i + 0.5) / K, (j + 0.37) / K])
                 e.iterate()
                 ev[(i, j)] = cme.diff_key(x, pr.state(n))
-                wt[(i, j)] = pr.time()
+                wt[(i, j)] = pr.time() * tfac
                 e.finalize()
                 stats["transitions"] += 1
 
@@ -535,6 +543,11 @@ def run(ctx):
         nstates[sysd["name"]] = len(sts)
         for x in sts:
             od.append({"sub": "owned", "name": sysd["name"], "spec": sysd["spec"], "state": x, "M": M})
+        if sysd.get("units_variants"):
+            for us3 in (("µm", "s", "mol"), ("nm", "ms", "nmol"), ("mm", "min", "molecule")):
+                for x in sts[:(6 if tier == "quick" else len(sts))]:
+                    od.append({"sub": "owned", "name": sysd["name"] + " [script units %s/%s/%s]" % us3, "spec": sysd["spec"],
+                               "state": x, "M": M, "units": list(us3)})
     tl = []
     for sysd in tl_systems():
         for sd in seeds[:(4 if tier == "quick" else 32)]:
